@@ -1,5 +1,133 @@
-"""C21.INV placeholder until the reviewed inventory is written (see inv_common)."""
+"""C21.INV (thorough tier) - reviewed inventory of panic-capable sites in apollo-compiler.
+
+Same construction as inv_parser: every `Assert` terminator (overflow, bounds; the pointer-alignment
+and coroutine-resume asserts that rustc inserts in debug builds are excluded), every call to a
+panicking std routine and every panic!/unreachable!/assert!/debug_assert! expansion in the crate
+(outside Debug impls) was read once and given a discharge class.  The rule fails for a site that is
+not in the table, or when a (function, kind) pair has more sites than were reviewed, naming it.
+Conservative by construction (a new harmless unwrap is reported), hence thorough tier only."""
+import re
+
+from .inv_parser import PANIC_CALL, kind_of_call
+
+TABLE = {
+    ('<apollo_parser::cst::Name as ast::from_cst::Convert>::convert', 'call:panicking::panic'): (1, 'debug-assert', 'compiled out in release builds; states an invariant of parsed/validated input'),
+    ('ast::impls::<impl apollo_compiler::ast::IntValue>::new_parsed', 'call:panicking::panic_fmt'): (1, 'debug-assert', 'compiled out in release builds; states an invariant of parsed/validated input'),
+    ('ast::impls::<impl apollo_compiler::ast::FloatValue>::new_parsed', 'call:panicking::panic_fmt'): (1, 'debug-assert', 'compiled out in release builds; states an invariant of parsed/validated input'),
+    ('ast::impls::try_to_f64', 'call:Result::unwrap_err'): (1, 'debug-assert', 'compiled out in release builds; states an invariant of parsed/validated input'),
+    ('ast::impls::try_to_f64', 'call:panicking::panic_display'): (1, 'debug-assert', 'compiled out in release builds; states an invariant of parsed/validated input'),
+    ('ast::impls::try_to_f64', 'call:panicking::panic'): (1, 'debug-assert', 'compiled out in release builds; states an invariant of parsed/validated input'),
+    ('ast::impls::<impl std::convert::From<i32> for apollo_compiler::ast::IntValue>::from', 'call:panicking::panic_fmt'): (1, 'debug-assert', 'compiled out in release builds; states an invariant of parsed/validated input'),
+    ('ast::impls::<impl std::convert::From<f64> for apollo_compiler::ast::FloatValue>::from', 'call:panicking::panic_fmt'): (1, 'debug-assert', 'compiled out in release builds; states an invariant of parsed/validated input'),
+    ("ast::serialize::State::<'_, '_, '_>::indent", 'assert:Overflow(Add)'): (1, 'arith', 'a counter bounded by the size of the input / nesting depth'),
+    ("ast::serialize::State::<'_, '_, '_>::indent_or_space", 'assert:Overflow(Add)'): (1, 'arith', 'a counter bounded by the size of the input / nesting depth'),
+    ("ast::serialize::State::<'_, '_, '_>::dedent", 'assert:Overflow(Sub)'): (1, 'arith', 'a counter bounded by the size of the input / nesting depth'),
+    ("ast::serialize::State::<'_, '_, '_>::dedent_or_space", 'assert:Overflow(Sub)'): (1, 'arith', 'a counter bounded by the size of the input / nesting depth'),
+    ("ast::serialize::State::<'_, '_, '_>::require_new_line", 'call:Option::expect'): (1, 'guarded-by-caller', 'called only from serialize_block_string, which is entered under state.newlines_enabled()'),
+    ('ast::serialize::serialize_string_value', 'call:<impl str>::split_at'): (1, 'find-index', 'i is the byte index returned by str::find: a char boundary'),
+    ('ast::serialize::serialize_string_value', 'assert:BoundsCheck'): (1, 'find-index', 'rest starts with the matched character: not empty'),
+    ('ast::serialize::serialize_string_value', 'call:Index<str>::index'): (1, 'find-index', 'the matched character is ASCII (one byte)'),
+    ('ast::serialize::can_be_block_string::{closure#2}', 'assert:Overflow(Sub)'): (1, 'arith', 'a counter bounded by the size of the input / nesting depth'),
+    ("<diagnostic::CliReport<'s>::into_string::OneTimeDisplay<'_> as std::fmt::Display>::fmt", 'call:Option::unwrap'): (1, 'internal-invariant', 'the wrapper is formatted exactly once by into_string'),
+    ("executable::from_ast::ExecutableDocumentBuilder::<'schema, 'errors>::add_ast_document_not_adding_sources", 'call:panicking::panic'): (1, 'debug-assert', 'compiled out in release builds; states an invariant of parsed/validated input'),
+    ("executable::from_ast::ExecutableDocumentBuilder::<'schema, 'errors>::add_ast_document_not_adding_sources", 'call:Option::unwrap'): (2, 'guarded-by-lookup', 'the else branch of an Entry::Vacant / contains test on the same key'),
+    ('executable::OperationMap::len', 'assert:Overflow(Add)'): (1, 'arith', 'a counter bounded by the size of the input / nesting depth'),
+    ('introspection::max_depth::check_selection_set', 'assert:Overflow(Add)'): (2, 'arith', 'a counter bounded by the size of the input / nesting depth'),
+    ('introspection::max_depth::check_selection_set', 'assert:Overflow(Sub)'): (1, 'arith', 'a counter bounded by the size of the input / nesting depth'),
+    ("<introspection::resolvers::TypeResolver<'_> as apollo_compiler::resolvers::ObjectValue>::resolve_field", 'call:panicking::panic'): (2, 'internal-invariant', 'an arm excluded by an earlier test in the same function'),
+    ('introspection::resolvers::include_deprecated', 'call:panicking::panic'): (1, 'internal-invariant', 'an arm excluded by an earlier test in the same function'),
+    ('name::Name::with_location', 'call:panicking::assert_failed'): (1, 'debug-assert', 'compiled out in release builds; states an invariant of parsed/validated input'),
+    ('name::Name::new_len', 'call:panicking::panic_fmt'): (1, 'out-of-scope', 'names of 4 GiB and more (inputs over 4 GiB are out of scope)'),
+    ('name::Name::is_valid_syntax', 'assert:BoundsCheck'): (1, 'loop-bound', 'i < bytes.len() is the loop condition (C10.NAME)'),
+    ('name::Name::is_valid_syntax', 'assert:Overflow(Add)'): (1, 'arith', 'a counter bounded by the size of the input / nesting depth'),
+    ('parser::_::<impl apollo_compiler::ast::_::_serde::Serialize for apollo_compiler::parser::LineColumn>::serialize', 'assert:Overflow(Add)'): (2, 'derive', 'arithmetic on field counts in serde-generated code'),
+    ('parser::Parser::parse_type::{closure#1}', 'call:Option::expect'): (1, 'no-syntax-errors', 'runs only when the error list is empty: the tree has a TYPE root whose conversion is total'),
+    ('parser::SourceFile::get_line_column', 'call:Index<str>::index'): (1, 'find-index', 'line_start is 0 or the index after an ASCII line terminator inside `before`'),
+    ('parser::SourceFile::get_line_column', 'assert:Overflow(Add)'): (4, 'arith', 'a counter bounded by the size of the input / nesting depth'),
+    ('parser::FileId::new', 'call:Option::unwrap'): (1, 'decided-by-C31.RMW', 'ids start at INITIAL = 3 and the tag bit is excluded before use: never zero'),
+    ('parser::FileId::const_new', 'call:panicking::panic'): (2, 'const-eval', 'const fn evaluated at compile time for the three reserved ids'),
+    ('parser::TaggedFileId::pack', 'call:panicking::panic'): (1, 'debug-assert', 'compiled out in release builds; states an invariant of parsed/validated input'),
+    ('resolvers::execution::execute_field::{closure#0}', 'assert:BoundsCheck'): (1, 'non-empty-group', 'field groups are created by pushing a first field (collect_fields)'),
+    ("resolvers::Execution::<'a>::operation", 'call:panicking::panic_fmt'): (1, 'api-contract', "documented `Panics if` of the Execution builder: a caller's double configuration, not input"),
+    ("resolvers::Execution::<'a>::operation_name", 'call:panicking::panic_fmt'): (1, 'api-contract', "documented `Panics if` of the Execution builder: a caller's double configuration, not input"),
+    ("resolvers::Execution::<'a>::implementers_map", 'call:panicking::panic_fmt'): (1, 'api-contract', "documented `Panics if` of the Execution builder: a caller's double configuration, not input"),
+    ("resolvers::Execution::<'a>::coerced_variable_values", 'call:panicking::panic_fmt'): (1, 'api-contract', "documented `Panics if` of the Execution builder: a caller's double configuration, not input"),
+    ("resolvers::Execution::<'a>::raw_variable_values", 'call:panicking::panic_fmt'): (1, 'api-contract', "documented `Panics if` of the Execution builder: a caller's double configuration, not input"),
+    ("resolvers::Execution::<'a>::enable_schema_introspection", 'call:panicking::panic_fmt'): (1, 'api-contract', "documented `Panics if` of the Execution builder: a caller's double configuration, not input"),
+    ("resolvers::Execution::<'a>::execute_sync", 'call:Option::expect'): (1, 'decided-by-C27.SHARED', 'now_or_never on a future that only awaits MaybeAsync::Sync values'),
+    ("resolvers::ResolveInfo::<'a>::field_name", 'assert:BoundsCheck'): (1, 'non-empty-group', 'field groups are created by pushing a first field (collect_fields)'),
+    ("resolvers::ResolveInfo::<'a>::field_definition", 'assert:BoundsCheck'): (1, 'non-empty-group', 'field groups are created by pushing a first field (collect_fields)'),
+    ('resolvers::result_coercion::complete_value::{closure#0}', 'assert:BoundsCheck'): (1, 'non-empty-group', 'field groups are created by pushing a first field (collect_fields)'),
+    ('resolvers::result_coercion::complete_value::{closure#0}', 'call:panicking::panic'): (1, 'internal-invariant', 'an arm excluded by an earlier test in the same function'),
+    ('resolvers::result_coercion::complete_list_value::{closure#0}', 'assert:BoundsCheck'): (1, 'non-empty-group', 'field groups are created by pushing a first field (collect_fields)'),
+    ('resolvers::result_coercion::complete_list_value::{closure#0}::{closure#0}', 'assert:BoundsCheck'): (1, 'non-empty-group', 'field groups are created by pushing a first field (collect_fields)'),
+    ('resolvers::result_coercion::complete_leaf_value', 'assert:BoundsCheck'): (1, 'non-empty-group', 'field groups are created by pushing a first field (collect_fields)'),
+    ('resolvers::result_coercion::complete_leaf_value', 'call:panicking::panic'): (1, 'internal-invariant', 'an arm excluded by an earlier test in the same function'),
+    ('response::_::<impl apollo_compiler::ast::_::_serde::Serialize for apollo_compiler::response::ExecutionResponse>::serialize', 'assert:Overflow(Add)'): (2, 'derive', 'arithmetic on field counts in serde-generated code'),
+    ('response::_::<impl apollo_compiler::ast::_::_serde::Serialize for apollo_compiler::response::GraphQLError>::serialize', 'assert:Overflow(Add)'): (4, 'derive', 'arithmetic on field counts in serde-generated code'),
+    ('schema::from_ast::SchemaBuilder::built_in::{closure#0}', 'call:panicking::panic'): (1, 'static-input', 'the built-in schema is a compile-time constant document'),
+    ('schema::from_ast::SchemaBuilder::build_inner', 'call:panicking::panic'): (1, 'guarded-by-lookup', 'orphan extensions exist only for names without a definition in schema.types'),
+    ('schema::from_ast::SchemaBuilder::build_inner', 'call:Option::unwrap'): (1, 'variant-invariant', 'only type extensions (which all have a name) are queued as orphans'),
+    ('schema::from_ast::adopt_type_extensions', 'assert:BoundsCheck'): (1, 'non-empty-group', 'an orphan entry is created by pushing its first extension'),
+    ('schema::from_ast::adopt_type_extensions', 'call:panicking::panic'): (1, 'variant-invariant', 'unreachable!: only the six type-extension variants are queued'),
+    ('schema::from_ast::adopt_type_extensions', 'call:Option::unwrap'): (6, 'variant-invariant', 'ext.name() of a type extension'),
+    ('schema::Schema::new', 'call:Result::unwrap'): (1, 'static-input', 'an empty builder has no errors'),
+    ('schema::validation::BuiltInScalars::all_used', 'assert:Overflow(Add)'): (1, 'arith', 'a counter bounded by the size of the input / nesting depth'),
+    ('validation::fragment::validate_fragment_spread_type', 'call:panicking::panic'): (1, 'internal-invariant', 'an arm excluded by an earlier test in the same function'),
+    ('validation::fragment::validate_fragment_spread_type', 'call:Option::unwrap'): (1, 'guarded-by-caller', 'validate_fragment_spread calls it inside the Some(def) arm of the same lookup'),
+    ('<validation::DiagnosticData as apollo_compiler::diagnostic::ToCliReport>::report', 'call:panicking::panic'): (2, 'internal-invariant', 'an arm excluded by an earlier test in the same function'),
+    ("validation::DepthGuard::<'_>::increment", 'assert:Overflow(Add)'): (1, 'arith', 'a counter bounded by the size of the input / nesting depth'),
+    ("validation::RecursionGuard::<'_>::push", 'call:panicking::panic_fmt'): (1, 'debug-assert', 'compiled out in release builds; states an invariant of parsed/validated input'),
+    ('validation::selection::same_name_and_arguments::{closure#0}', 'call:panicking::panic_fmt'): (1, 'debug-assert', 'compiled out in release builds; states an invariant of parsed/validated input'),
+    ('validation::selection::same_name_and_arguments::{closure#0}', 'call:Option::unwrap'): (1, 'guarded-by-lookup', 'the closure is called for a name taken from one of the two argument lists'),
+}
+
+
+def sites(prog):
+    out = []
+    for fn in prog.fns.values():
+        if fn.crate != "apollo_compiler":
+            continue
+        if re.search(r" as std::fmt::Debug>::fmt$", fn.name):
+            continue
+        for b in sorted(fn.live_blocks()):
+            t = fn.term(b)
+            if t[0] == "assert":
+                kk = str(t[3])
+                if "Misaligned" in kk or "NullDeref" in kk or "Resumed" in kk:
+                    continue
+                mm = re.match(r"^\['?(\w+)'?(?:, '?(\w+)'?)?", kk)
+                kind = "assert:%s%s" % (mm.group(1), "(%s)" % mm.group(2) if mm.group(2) and mm.group(1) == "Overflow" else "") if mm else "assert:" + kk[:20]
+                out.append((fn, kind, "%s:%s" % (fn.file, t[6][0])))
+            elif t[0] == "call":
+                c = fn.call_at(b)
+                if PANIC_CALL.search(c.name):
+                    out.append((fn, kind_of_call(c.name), c.loc()))
+    return out
 
 
 def run(prog, rep):
-    rep.note("C21.INV: panic-site inventory not built yet; thorough tier currently equals quick tier")
+    rep.floor("C21.INV", 60)
+    found = sites(prog)
+    counts, where = {}, {}
+    for fn, kind, loc in found:
+        short = fn.name.replace("apollo_compiler::", "", 1)
+        counts[(short, kind)] = counts.get((short, kind), 0) + 1
+        where.setdefault((short, kind), []).append(loc)
+    classes = {}
+    for key, n in sorted(counts.items()):
+        row = TABLE.get(key)
+        if row is None:
+            rep.finding("C21.INV", "apollo_compiler::" + key[0], "unreviewed:" + key[1],
+                        "a panic-capable site (%s) is not in the reviewed inventory of apollo-compiler" % key[1], where[key][0])
+        elif n > row[0]:
+            rep.finding("C21.INV", "apollo_compiler::" + key[0], "count:" + key[1],
+                        "%d sites of kind %s (reviewed: %d): a new panic-capable site" % (n, key[1], row[0]), where[key][-1])
+        else:
+            classes[row[1]] = classes.get(row[1], 0) + n
+            rep.instance("C21.INV", "%s: %d x %s - %s (%s)" % (key[0].split("::")[-1][:40], n, key[1], row[1], row[2][:80]))
+    rep.extra["inventory"] = {"sites": len(found), "rows": len(TABLE), "by_class": classes}
+    gone = [k for k in TABLE if k not in counts]
+    if gone:
+        rep.note("inventory rows without a site on this tree: %d" % len(gone))
+    rep.assume("ariadne rendering, serde_json and allocation failure are outside the inventory; `api-contract` rows panic on a caller's misuse of the builder API, not on input")
